@@ -74,7 +74,7 @@ META["C03"] = {
 
 META["C04"] = {
     "title": "Multi-input combinators follow the interleaving of their inputs",
-    "rule": "cases = (operator, local|_threads form, script A, script B, interleaving). Enumerated: all pairs of scripts with 0..n uniquely numbered items (quick n=3, thorough n=5) and terminal {none, complete, error}, optionally followed by post-terminal events, x ALL interleavings of the two scripts, for merge, zip, combine_latest, with_latest_from, take_until, skip_until, sample, buffer in both forms, both inputs hot Subjects driven from one thread; plus each pair with one input cold (create emitting at subscription); plus seeded random timelines with up to 6 items per input. Non-trivial: both inputs contributed an event and the scripts were really interleaved (some B event precedes some A event); distinct = hash of (operator, form, timeline). Thread part: merge / zip / combine_latest / with_latest_from / take_until / skip_until / sample in their _threads form with input k driven from thread k (1-3 items, optional terminal or unsubscribe per thread), under random, PCT and preemption-bounded systematic schedules at the hooked lock points and free-running on OS threads; oracle: some linearization of the calls consistent with their call/return stamps, fed to the same timeline model, explains the observed output.",
+    "rule": "cases = (operator, local|_threads form, script A, script B, interleaving). Enumerated: all pairs of scripts with 0..n uniquely numbered items (quick n=3, thorough n=5) and terminal {none, complete, error}, optionally followed by post-terminal events, x ALL interleavings of the two scripts, for merge, zip, combine_latest, with_latest_from, take_until, skip_until, sample, buffer in both forms, both inputs hot Subjects driven from one thread; plus each pair with one input cold (create emitting at subscription); the same with that input a from_iter (a source that consults is_finished() before every item; scripts 'items, complete' only; counter cases_with_a_from_iter_input); plus seeded random timelines with up to 6 items per input. Non-trivial: both inputs contributed an event and the scripts were really interleaved (some B event precedes some A event); distinct = hash of (operator, form, timeline). Thread part: merge / zip / combine_latest / with_latest_from / take_until / skip_until / sample in their _threads form with input k driven from thread k (1-3 items, optional terminal or unsubscribe per thread), under random, PCT and preemption-bounded systematic schedules at the hooked lock points and free-running on OS threads; oracle: some linearization of the calls consistent with their call/return stamps, fed to the same timeline model, explains the observed output.",
     "assumptions": COMMON_ASSUME + [
         "timeline reference model written from the property statement and operator docs; where they are silent the oracle accepts a set: zip/combine_latest may complete anywhere between 'no further output possible' and 'both inputs completed'; a skip_until notifier completing empty may or may not open the gate; after buffer's notifier completed either flush-and-complete or keep gathering; a take_until/skip_until notifier error may be ignored or propagated; sample may flush or drop an unsampled value when the source completes; buffer may emit or skip an empty buffer",
     ],
@@ -82,7 +82,7 @@ META["C04"] = {
     "level_text": "Exploration: every enumerated interleaving and every sampled random timeline is executed on the real operators (both forms) and compared with the timeline model; unique ids make loss, duplication and mis-pairing directly visible.",
     "level_note": "Trusted: the timeline model (harness/src/model.rs two_input_model) and its documented relaxations, the probe, rustc.",
     "design_ref": "DESIGN.md §5 C04",
-    "require": {"quick": {"operators_covered": 16, "thread_schedules": 8000, "free_parallel_runs": 1500}, "thorough": {"operators_covered": 16, "thread_schedules": 300000, "free_parallel_runs": 100000}},
+    "require": {"quick": {"operators_covered": 16, "thread_schedules": 8000, "free_parallel_runs": 1500, "cases_with_a_from_iter_input": 1000}, "thorough": {"operators_covered": 16, "thread_schedules": 300000, "free_parallel_runs": 100000}},
 }
 
 META["C01"] = {
@@ -129,7 +129,7 @@ META["C05"] = {
 
 META["C06"] = {
     "title": "Subjects deliver each item once, in order, to exactly the current subscribers",
-    "rule": "cases = (subject type in {Subject, SubjectThreads, MutRefItemSubject, MutRefErrSubject, MutRefItemErrSubject}, random history of length <= 12 quick / <= 30 thorough over subscribe / unsubscribe-one / next / error / complete / clone / retain / unsubscribe-subject / arm-a-subscribe-from-inside-the-callback, <= 3 regular subscribers plus nested ones). Every history is executed on the real subject and, in lock step, on a sequential multicast model (for the &mut variants the probe mutates the item/error and the model tracks the mutation chain and the value handed back to the emitter). After every step past a terminal/unsubscribe the flags is_finished/is_closed/is_empty/len are compared. Non-trivial: >= 2 subscribers and a join or leave happened between two emissions; distinct = hash(type, history). The SubjectThreads two/three-thread part is run under the baton scheduler (thread_* counters).",
+    "rule": "cases = (subject type in {Subject, SubjectThreads, MutRefItemSubject, MutRefErrSubject, MutRefItemErrSubject}, random history of length <= 12 quick / <= 30 thorough over subscribe / unsubscribe-one / next / error / complete / clone / retain / unsubscribe-subject / arm-a-subscribe-from-inside-the-callback, <= 3 regular subscribers plus nested ones). Every history is executed on the real subject and, in lock step, on a sequential multicast model (for the &mut variants the probe mutates the item/error and the model tracks the mutation chain and the value handed back to the emitter). After every step past a terminal/unsubscribe the flags is_finished/is_closed/is_empty/len are compared. Non-trivial: >= 2 subscribers and a join or leave happened between two emissions; distinct = hash(type, history). The SubjectThreads two/three-thread part is run under the baton scheduler (thread_* counters): each thread runs up to 4 of next / subscribe / unsubscribe(k) / retain()+len() / complete / error / unsubscribe-subject on clones of one subject; oracle on call/return stamps (must / must-not receive, exactly once), common order, panic, every call returned.",
     "assumptions": COMMON_ASSUME + [
         "len()/is_empty() are only checked where the statement speaks (after a terminal or unsubscribe())",
         "a subscriber that joins after the subject terminated receives nothing (what the statement says: it delivers nothing after a terminal)",
@@ -158,7 +158,7 @@ META["C08"] = {
 
 META["C07"] = {
     "title": "Scheduler-moving operators preserve the source's sequence",
-    "rule": "cases = (one or two of observe_on / delay / delay_at / delay_subscription / delay_subscription_at / subscribe_on in local or _threads form, optionally between transparent operators, timed script of 1..n uniquely numbered items (quick n=5, thorough n=9) with terminal none/complete/error and gaps {0,1,2,5,10,60} ms, delays {0,1,5,50} ms, instants {past, now, +40ms, +1h}, executor class fifo (FIFO task order, equal deadlines woken in creation order) or any-order (any ready task next, equal deadlines in any order), prompt or late schedule, schedule seed). Subscription-moving operators get a cold source. Non-trivial: at least two tasks were ready at once or a delay was pending across an input event; distinct = hash(case). A violation is blamed on the first scheduler operator of the case that shows the same violation kind alone. A share of the cases (counter runs_on_the_real_LocalPool) is built with the library's own `impl Scheduler for futures::executor::LocalSpawner` and run on the real futures LocalPool (run_until_stalled / try_run_one) instead of the harness executor. Thread part (scenarios observe_on_threads[fifo-worker], delay_threads[fifo-worker]): one producer thread emits 1-4 items and an optional terminal into observe_on_threads / delay_threads(0|1ms) while ONE worker thread runs the scheduled tasks in FIFO order and fires the virtual timers (a single-threaded pool on its own thread), optionally with an unsubscribing thread; random/PCT and preemption-bounded systematic schedules at the hooked lock points plus free-running OS threads; whatever is still scheduled when the threads end is run FIFO afterwards; oracle: no invented or duplicated item, source order kept, and without an unsubscribe every item then the terminal arrived.",
+    "rule": "cases = (one or two of observe_on / delay / delay_at / delay_subscription / delay_subscription_at / subscribe_on in local or _threads form, optionally between transparent operators, timed script of 1..n uniquely numbered items (quick n=5, thorough n=9) with terminal none/complete/error and gaps {0,1,2,5,10,60} ms, delays {0,1,5,50} ms, instants {past, now, +40ms, +1h}, executor class fifo (FIFO task order, equal deadlines woken in creation order) or any-order (any ready task next, equal deadlines in any order), prompt or late schedule, schedule seed). Subscription-moving operators get a cold source. Non-trivial: at least two tasks were ready at once or a delay was pending across an input event; distinct = hash(case). A violation is blamed on the first scheduler operator of the case that shows the same violation kind alone. A share of the cases (counter runs_on_the_real_LocalPool) is built with the library's own `impl Scheduler for futures::executor::LocalSpawner` and run on the real futures LocalPool (run_until_stalled / try_run_one) instead of the harness executor. Thread part (scenarios observe_on_threads[fifo-worker], delay_threads[fifo-worker]): one producer thread emits 1-4 items and an optional terminal into observe_on_threads / delay_threads(0|1ms) while ONE worker thread runs the scheduled tasks in FIFO order and fires the virtual timers (a single-threaded pool on its own thread), optionally with an unsubscribing thread; random/PCT and preemption-bounded systematic schedules at the hooked lock points plus free-running OS threads; whatever is still scheduled when the threads end is run FIFO afterwards; oracle: no invented or duplicated item, source order kept, and without an unsubscribe every item then the terminal arrived. Feedback loops (counter feedback_loop_cases): the subscriber's callback pushes item x+1 into the hot source when x arrives (1..4 quick / 1..8 thorough items), through observe_on / delay(0|1ms) alone, stacked and between map / filter / tap, in all three builder flavours; when the loop has run dry the source completes, fails or stays open from outside: every item in order, then the terminal.",
     "assumptions": COMMON_ASSUME + [
         "item identity by unique ids; 'never earlier' is judged on virtual stamps: delivery >= emission + sum of configured delays; for _at forms the real time the case took (+1 ms) is the tolerance",
         "the any-order executor models a k-worker pool; the real futures ThreadPool is not under the explorer's control",
@@ -167,7 +167,7 @@ META["C07"] = {
     "level_text": "Exploration over sampled scripts and task orders under two executor models.",
     "level_note": "Trusted: virtual clock, arena executor behind the VerifScheduler hook (the library's own remote_handle / Remote::poll / delay-await code runs unchanged).",
     "design_ref": "DESIGN.md §5 C07",
-    "require": {"quick": {"runs_where_task_order_was_a_choice": 10000, "operators_covered": 8, "thread_schedules": 5000, "free_parallel_runs": 1000}, "thorough": {"operators_covered": 8, "thread_schedules": 200000, "free_parallel_runs": 80000}},
+    "require": {"quick": {"runs_where_task_order_was_a_choice": 10000, "operators_covered": 8, "thread_schedules": 5000, "free_parallel_runs": 1000, "feedback_loop_cases": 250}, "thorough": {"operators_covered": 8, "thread_schedules": 200000, "free_parallel_runs": 80000}},
 }
 
 META["C09"] = {
